@@ -106,6 +106,14 @@ def sym_call(interp, fn, *args, static_argnums=(), **kw):
   from jax._src.interpreters import partial_eval as pe
   jaxpr, used = pe.dce_jaxpr(closed.jaxpr, [True] * len(closed.jaxpr.outvars))      # drop dead equations
   outs = interp.eval(jaxpr, closed.consts, *[leaves[i].arr for i, u in zip(pos, used) if u])
+  if getattr(interp, 'lazy_unsupported', False):
+    from verif.engine.jaxsym import Poison
+    from verif.engine.alg import Unsupported
+    for o in outs:
+      if is_sym(o):
+        for e in o.reshape(-1):
+          if isinstance(e, Poison):
+            raise Unsupported('%s (reaches an output)' % e.err)
   otree = jax.tree_util.tree_structure(out_shape)
   interp.last_jaxpr = closed
   return jax.tree_util.tree_unflatten(otree, outs)
